@@ -84,6 +84,12 @@ def lineFromBytes (bytes : Bytes) : Line :=
            | none => .none)
     | _ => .none   -- fewer than four fields: nothing is recorded
 
+/-- one iteration of the loop in `Line::from_bytes` (which splits its argument on '\n' "to
+    simplify things"): `none` = `continue` (blank or comment sub-line), `some l` = `return l` -/
+def subLine (bytes : Bytes) : Option Line :=
+  let line := bytes.dropWhile isAsciiWhiteByte
+  if line.head? == some 35 || line.isEmpty then none else some (lineFromBytes bytes)
+
 /-- an IndexMap<PathBuf, Entry>: insertion-ordered association list, keys compared
     component-wise -/
 abbrev EMap := List (Bytes × Entry)
@@ -133,6 +139,11 @@ def splitNl' : Bytes → List Bytes
     match splitNl' rest with
     | [] => [[c]]
     | l :: ls => (c :: l) :: ls
+
+/-- `Line::from_bytes` on arbitrary bytes: the first sub-line that is neither blank nor a
+    comment decides; if there is none the result is `Line::None` -/
+def lineFromBytesNl (bytes : Bytes) : Line :=
+  ((splitNl' bytes).findSome? subLine).getD .none
 
 def Distinfo.applyLine (d : Distinfo) (l : Line) : Distinfo :=
   match l with
